@@ -14,25 +14,25 @@ CHECKS = {
  "C11": ("exploration", "E2 trace monitor", "runtime monitoring: result map of every call compared with the set of rules whose return was observed in that call's event log, over call sequences on one engine / pool instance",
          "exploration over generated rule sets, methods and call sequences", "expected key set is derived from the observed trace, not from a model of the scheduler", "4 C11"),
  "C12": ("exploration", "E2 trace monitor", "runtime monitoring: event-log oracle for the selected-rule rows (selection, as-given order, underlying model) over generated name lists",
-         "exploration over name lists incl. unknown names, empty lists, wrong N+M counts", "duplicate names are outside the property", "4 C12"),
+         "exploration over name lists incl. unknown names, empty lists, wrong N+M counts, duplicated names", "for lists with a duplicated name only 'no unselected rule runs' is decided (the property does not say how often a duplicate runs)", "4 C12"),
  "C13": ("exploration", "E2 trace monitor", "runtime monitoring: event-log oracle for DAG layers (barriers with laggard holds, occurrences, stop after a failing layer)",
          "exploration over generated layerings and failing subsets, GOMAXPROCS varied", "holds only provoke", "4 C13"),
  "C14": ("exploration", "E2 trace monitor", "runtime monitoring: event-log oracle for the stop-tag rows; tag-less equivalence by validating against the tag-less row",
          "exploration over setter positions x failing subsets x policy", "", "4 C14"),
  "C01": ("exploration", "E1 generator + reference interpreter", "runtime monitoring: differential reference-model monitor over generated expression trees executed by the real builder/engine (result map value and type, error nil-ness)",
          "type-directed, boundary-biased generation; each rule's value compared with an independent interpreter of the reference semantics written from the property",
-         "trusts the reference interpreter in harness/gen (about 300 lines) and strconv for literal values; undefined cases (NaN, strict-only errors) are not generated", "4 C01"),
+         "trusts the reference interpreter in harness/gen (about 300 lines) and strconv for literal values; NaN compares as in float64 (unordered); a fault below the right operand of && / || is a fault (both operands are evaluated); a generated text the builder rejects is a violation", "4 C01"),
  "C02": ("exploration", "E1 generator + reference interpreter", "runtime monitoring: executed-path trace (observer call at every basic block), final locals, host state and result of generated statement programs compared with the reference execution",
          "exploration over statement trees; observer ids make the executed path itself the observation", "map-iteration-order-dependent programs are not generated (bag comparison for map loops)", "4 C02"),
  "C03": ("exploration", "E1 generator + reference interpreter", "runtime monitoring: exhaustive source-kind x target conversion matrix plus random host-access programs; typed read-backs through observers and DeepEqual of the host state against the reference model",
          "the matrix part enumerates a finite catalog completely in both tiers; the random part explores", "only stores the property promises are decided", "4 C03"),
  "C08": ("exploration", "algebra histories", "runtime monitoring: sequential model-based histories on one RuleBuilder; after every operation the sort-model trace (version tags), result map and IsExist are compared with a map model",
-         "exploration over operation histories (full / incremental / removal / failing texts)", "stored description is read through the exported Kc field because no public accessor exists", "4 C08"),
+         "exploration over operation histories (full / incremental / removal / failing texts, earlier texts pushed again)", "stored description is read through the exported Kc field because no public accessor exists", "4 C08"),
  "C18": ("exploration", "E1 generator + reference interpreter", "runtime monitoring: sequenced observer events of generated conc blocks (exactly-once, join before the next statement with laggard holds, visibility of assignments, error propagation, no late events)",
          "exploration over member mixes, failing subsets and GOMAXPROCS", "members touch disjoint state; holds only provoke", "4 C18"),
  "C20": ("exploration", "line-citation monitor", "runtime monitoring: generated multi-line texts with exactly one faulty construct on a known line; every 'line N, column' citation in the returned error is compared with that line, must-cite classes must cite",
-         "exploration over fault classes x enclosing statement kinds x placements, full and incremental installs", "this is the only check that reads error texts (the property is about them); the citation pattern is a regexp", "4 C20"),
- "C10": ("exploration", "compile fuzzer", "runtime monitoring: differential fuzzing of the five compile entry points (token-level mutants, valid texts, raw bytes) with before/after observation of the installed rule set through executions and queries",
+         "exploration over fault classes x enclosing statement kinds x placements, full and incremental installs, texts delivered twice at different line offsets", "this is the only check that reads error texts (the property is about them); the citation pattern is a regexp", "4 C20"),
+ "C10": ("exploration", "compile fuzzer", "runtime monitoring: differential fuzzing of the five compile entry points (token-level mutants, valid texts, raw bytes; on pre-loaded builders / pools and in states produced by earlier removals, clears and incremental updates) with before/after observation of the installed rule set through executions and queries",
          "exploration; crash and hang of a compile entry point are violations (child processes with journals)", "accept/reject is compared across entry points, error texts are not inspected", "4 C10"),
  "C06": ("exploration", "E3 pool storms", "runtime monitoring: request-unique ids echoed by rules into results, the request's own objects and observers during storms through all 24 pool methods; stale-key probes on every instance; result maps re-compared after the storm",
          "exploration over schedules (client goroutines, holds inside rules, hook jitter, GOMAXPROCS) and pool sizes", "identity checks on values only", "4 C06"),
@@ -47,7 +47,7 @@ CHECKS = {
  "C19": ("exploration", "E6 race harness", "Go race detector (-race build of the worker, halt_on_error=0) over the concurrency scenario families; every WARNING: DATA RACE block is parsed, attributed by innermost non-runtime frame and deduplicated by access-site pair",
          "sanitizer run over repeated, seed-varied concurrent workloads; silence covers what was executed", "workloads are race-free on the user side by construction; reports wholly inside the ANTLR runtime are out of scope", "4 C19"),
  "C15": ("exploration", "E2 trace monitor", "runtime monitoring: rules sharing local names, readers-before-write must fault and writers must get their own value back, in every model, repeated calls and concurrent duplicates",
-         "exploration", "a leak must change a returned value or let a reader succeed to be seen", "4 C15"),
+         "exploration; deterministic leak probe rounds in every case", "a leak must change a returned value, let a reader succeed or change what the host sees", "4 C15"),
 }
 PENDING = {}
 
